@@ -100,6 +100,50 @@ class Recorder(object):
         self.sle.__dict__[self.name] = self.orig
 
 
+class LinProxy(object):
+    """concrete mode: stand-in for the module global `lin` of sle that records what the micro-solver returned"""
+
+    def __init__(self, real):
+        self._real = real
+        self.solved = []
+
+    def __getattr__(self, k):
+        return getattr(self._real, k)
+
+    def solve(self, a, b, **kw):
+        a0, b0 = np.array(a, copy=True), np.array(b, copy=True)
+        x = self._real.solve(a, b, **kw)
+        self.solved.append((a0, b0, np.array(x, copy=True)))
+        return x
+
+    def lu_solve(self, lu, b, **kw):
+        b0 = np.array(b, copy=True)
+        x = self._real.lu_solve(lu, b, **kw)
+        self.solved.append((None, b0, np.array(x, copy=True)))
+        return x
+
+
+class NpProxy(object):
+    """concrete mode: stand-in for the module global `np` of sle whose linalg.solve is recorded by the given LinProxy"""
+
+    def __init__(self, real, rec):
+        self._real = real
+
+        class _LA(object):
+            def __getattr__(self_la, k):
+                return getattr(real.linalg, k)
+
+            def solve(self_la, a, b):
+                a0, b0 = np.array(a, copy=True), np.array(b, copy=True)
+                x = real.linalg.solve(a, b)
+                rec.solved.append((a0, b0, np.array(x, copy=True)))
+                return x
+        self.linalg = _LA()
+
+    def __getattr__(self, k):
+        return getattr(self._real, k)
+
+
 def _grid(tier):
     out = []
     for s in _shapes(tier):
@@ -108,7 +152,7 @@ def _grid(tier):
                 continue
             for cplx in (False, True):
                 for solver in ('solve', 'lu'):
-                    if tier == 'quick' and solver == 'lu' and cplx:
+                    if tier == 'quick' and solver == 'lu' and cplx and len(s['dims']) > 2:
                         continue
                     for repeats in (1, 2):
                         if repeats == 2 and (cplx or solver == 'lu' or len(s['dims']) > 3):
@@ -144,12 +188,41 @@ def galerkin(ctx, shape, method, cplx, solver, repeats):
         from symtt import state, lapack
         free_policy(ctx)
     width = 1 if method == 'als' else 2
-    with Recorder(sle, '__update_core_' + method) as rec:
-        if method == 'als':
-            sol = sle.als(A, x0, b, repeats=repeats, solver=solver)
-        else:
-            sol = sle.mals(A, x0, b, repeats=repeats, solver=solver, threshold=0, max_rank=np.inf)
+    proxy = None
+    if not ctx.sym and ctx.mode != 'tv':
+        proxy = LinProxy(sle.lin)
+        sle.lin = proxy
+        real_np = sle.np
+        sle.np = NpProxy(real_np, proxy)
+    try:
+        with Recorder(sle, '__update_core_' + method) as rec:
+            if method == 'als':
+                sol = sle.als(A, x0, b, repeats=repeats, solver=solver)
+            else:
+                sol = sle.mals(A, x0, b, repeats=repeats, solver=solver, threshold=0, max_rank=np.inf)
+    finally:
+        if proxy is not None:
+            sle.lin = proxy._real
+            sle.np = real_np
     sched = [(c['i'], c['direction']) for c in rec.calls]
+    # the micro-solver (either branch) must be asked for, and return, the solution of  micro_op . y = micro_rhs
+    glabel = '%s/%s: every micro-solve solves micro_op y = micro_rhs' % (method, solver)
+    if ctx.sym:
+        from symtt import state as _st
+        solves = [c for c in _st.S.stub_log if c.kind == 'solve']
+        with ctx.group(glabel):
+            ctx.check('one linear solve per micro step', len(solves) == len(rec.calls), detail='%d vs %d' % (len(solves), len(rec.calls)))
+            for n, (c, sv) in enumerate(zip(rec.calls, solves)):
+                ctx.eq('micro step %d: matrix handed to the solver (after trans) == micro_op' % n, sv.A, c['op'])
+                ctx.eq('micro step %d: right-hand side handed to the solver == micro_rhs' % n, sv.b.reshape(-1), c['rhs'].reshape(-1))
+    elif proxy is not None:
+        ok = len(proxy.solved) == len(rec.calls)
+        worst = 0.0
+        for c, (a0, b0, xs) in zip(rec.calls, proxy.solved):
+            op = np.asarray(c['op'], dtype=complex); rhs = np.asarray(c['rhs'], dtype=complex).reshape(-1)
+            res = np.linalg.norm(op @ np.asarray(xs, dtype=complex).reshape(-1) - rhs)
+            worst = max(worst, res / (1e-300 + np.linalg.norm(rhs) + np.linalg.norm(op) * np.linalg.norm(xs)))
+        ctx.check(glabel, bool(ok and worst < 1e-8), detail='worst relative residual %.2e (%d solves, %d micro steps)' % (worst, len(proxy.solved), len(rec.calls)))
     ctx.check('%s: sweep schedule (repeats=%d)' % (method, repeats), sched == _expected_schedule(method, d, repeats), detail=repr(sched))
     for n, c in enumerate(rec.calls):
         P = frame(ctx, c['cores'], c['i'], width, c['ranks'], shape['dims'])
